@@ -420,3 +420,79 @@ func LayerAware(r *vh.Rand, f Fixture) ([]byte, string) {
 	}
 	return out, name + "@" + strconv.Itoa(q)
 }
+
+// Case is one derived input: bytes to be decoded starting at layer type First.
+type Case struct {
+	Name  string
+	Data  []byte
+	First gopacket.LayerType
+}
+
+// TrailingLengthCases enumerates, for every fixture and every layer of it taken as the start of the data, the
+// length fields that cover exactly the rest of the data - a 16-bit big-endian or 8-bit field whose value equals the
+// number of bytes behind it (a trailing TLV / record), the bytes from the field on, or the whole data - and
+// changes each one consistently one level up and inconsistently one level down: the field grows by k in 1..3 and
+// k octets are appended, or it shrinks by 1.  The layout is inferred from the pristine bytes, not from the decoders.
+func TrailingLengthCases(fx []Fixture, maxPerStart int) []Case {
+	var out []Case
+	seen := map[string]bool{}
+	for _, f := range fx {
+		var starts []Case
+		func() {
+			defer func() { recover() }()
+			starts = append(starts, Case{f.Name, f.Data, f.First})
+			p := gopacket.NewPacket(f.Data, f.First, gopacket.DecodeOptions{DecodeStreamsAsDatagrams: true})
+			ls := p.Layers()
+			for j := 0; j+1 < len(ls); j++ {
+				if pl := ls[j].LayerPayload(); len(pl) > 0 && ls[j+1].LayerType() != gopacket.LayerTypeDecodeFailure {
+					starts = append(starts, Case{f.Name + "@layer" + strconv.Itoa(j+1), pl, ls[j+1].LayerType()})
+				}
+			}
+		}()
+		for _, s := range starts {
+			d := s.Data
+			if len(d) < 3 || len(d) > 2000 {
+				continue
+			}
+			key := s.First.String() + string(d)
+			if seen[key] {
+				continue
+			}
+			seen[key] = true
+			n := 0
+			for p := 0; p < len(d)-1 && n < maxPerStart; p++ {
+				for _, w := range []int{2, 1} {
+					if p+w > len(d) {
+						continue
+					}
+					v := int(d[p])
+					if w == 2 {
+						v = int(d[p])<<8 | int(d[p+1])
+					}
+					if v < 2 || (v != len(d)-p-w && v != len(d)-p && v != len(d)) {
+						continue
+					}
+					for _, k := range []int{1, 2, 3, -1} {
+						nv := v + k
+						if (w == 1 && nv > 255) || nv > 65535 {
+							continue
+						}
+						c := append([]byte(nil), d...)
+						if w == 2 {
+							c[p], c[p+1] = byte(nv>>8), byte(nv)
+						} else {
+							c[p] = byte(nv)
+						}
+						for i := 0; i < k; i++ {
+							c = append(c, byte(0xA0+i))
+						}
+						c = c[:len(c):len(c)]
+						out = append(out, Case{s.Name + "~len" + strconv.Itoa(w*8) + "@" + strconv.Itoa(p) + strconv.Itoa(k), c, s.First})
+					}
+					n++
+				}
+			}
+		}
+	}
+	return out
+}
